@@ -6,7 +6,10 @@ PATCH=$1; TIER=$2; shift 2
 cd /verif
 if ! git -C /repo diff --quiet; then echo "/repo working tree not clean"; exit 2; fi
 git -C /repo apply "$PATCH" || { echo "patch does not apply"; exit 2; }
-trap 'git -C /repo checkout -- . ; git -C /repo clean -fdq -- . 2>/dev/null' EXIT
+# evidence files are written by every run: keep the clean-tree ones (a run against a mutation must never be what gets committed)
+BK=$(mktemp -d)
+cp -a /verif/evidence/. "$BK"/ 2>/dev/null
+trap 'git -C /repo checkout -- . ; git -C /repo clean -fdq -- . 2>/dev/null; cp -a "$BK"/. /verif/evidence/ 2>/dev/null; rm -rf "$BK"' EXIT
 for P in "$@"; do
   out=$(./check $P --tier $TIER 2>&1); rc=$?
   echo "== $P rc=$rc"; echo "$out" | grep -E "VIOLATION|KNOWN-FINDING|\[check\]" | cut -c1-300
